@@ -75,6 +75,9 @@ def run(ck, tier):
         cls, f, fps = framer_paths(cx, kind)
         ck.guard(r6_header_cache_coherence, ck, cx, kind, cls, f, fps, 'R5')
         ck.guard(r7_add_appends, ck, cx, kind, cls, 'R5')
+    ck.rule('R6', 'the client-side receiver drops an abandoned partial reply before the next transaction (shared with C08 R4)')
+    from ..share import import_findings
+    import_findings(ck, 'C08', 'R6', ('R4',), 'the fragment stays at the head of the buffer and every later reply is appended behind it: the master is deaf from then on')
     ck.floor('R1', n1, 3, 'failed-integrity paths')
     ck.floor('R2', n2, 3, 'foreign-unit paths')
     ck.floor('R3', n3, 2, 'garbage-prefix paths')
